@@ -25,6 +25,8 @@ Hypotheses the proof forces (`Good g d`: every jointless body below the root is 
  (c) a jointless body holds only `body`/`geom`/`site`/`camera` elements (the code offsets no
      other tag: the `TODO` in `_fuse_bodies`; `inertial`, `light`, `frame` are outside the
      property's generator).
+The property at full strength is `PreservesGeometry F`; `fuseFixed_preservesGeometry` proves it
+for the patched code, `fuse_not_preservesGeometry` refutes it for the pinned code (D5).
 `'%f'` printing of the rewritten attributes (six decimals) is not modelled here: the theorems
 are exact identities of the real-number semantics.
 
@@ -211,6 +213,38 @@ theorem fuse_nonUnit_counterexample :
     relPose (fuse docNonUnit) .geom "g" = some ("", .frame ⟨⟨4, 0, 2⟩, ⟨2, 0, 0, 0⟩⟩) ∧
     relPose (fuseFixed docNonUnit) .geom "g" = some ("", .frame ⟨⟨4, 0, 2⟩, ⟨2, 0, 0, 0⟩⟩) := by
   decide +kernel
+
+/-! ## the property at full strength -/
+
+/-- **the property, at full strength, of a fusing function `F`**: on every document of the
+generator's language — jointless bodies carry unit quaternions and hold only
+body/geom/site/camera elements (`Good guardFixed` is exactly (a) and (c), see
+`fusable_fixed_iff`), names are unique — every geom, site, camera and jointed body keeps the
+body it hangs on and its pose relative to it.  Jointless bodies with `pos` only, `quat` only,
+both or neither are all inside this language. -/
+def PreservesGeometry {K : Type} [Field K] [LinearOrder K] (F : Elem K → Elem K) : Prop :=
+  ∀ d : Elem K, Good guardFixed d → (names d).Nodup →
+    ∀ k n, relPose (F d) k n = relPose d k n
+
+/-- the code **with the D5 patch** has the property at full strength -/
+theorem fuseFixed_preservesGeometry {K : Type} [Field K] [LinearOrder K] :
+    PreservesGeometry (K := K) fuseFixed :=
+  fun d h hn k n => fuseFixed_preserves_relPose d h hn k n
+
+/-- the code **of the pinned tree** does not (defect D5): `docRotOnly` is in the language and its
+geom moves -/
+theorem fuse_not_preservesGeometry : ¬ PreservesGeometry (K := Rat) fuse := by
+  intro h
+  have hgood : Good guardFixed (α := Rat) docRotOnly := by
+    simp only [docRotOnly, Good, GoodL, isJointlessBody, hasJoint, isJoint, List.any_cons,
+      List.any_nil, Fusable, guardOK_fixed, isOther, posD, quatD, Option.getD, Q4.normSq,
+      List.mem_cons, List.not_mem_nil]
+    norm_num
+  have hn : (names docRotOnly).Nodup := by decide +kernel
+  have h1 := h docRotOnly hgood hn .geom "g"
+  have h2 : ¬ (relPose (fuse docRotOnly) .geom "g" = relPose docRotOnly .geom "g") := by
+    decide +kernel
+  exact h2 h1
 
 /-! ## non-vacuity: a document with nested jointless bodies satisfying every hypothesis -/
 
